@@ -3,6 +3,10 @@
 package server
 
 import (
+	"os"
+	"strings"
+	"time"
+
 	"github.com/mimiro-io/datahub/internal/verifh"
 )
 
@@ -144,4 +148,114 @@ func VerifC13Race(h *verifh.H) {
 	// (which client gets which prefix depends on the schedule; only schedule-independent
 	// values are observed for the concolic validation)
 	h.Observe("same", p1 == p2)
+}
+
+// VerifC13Crash: mappings that were handed out survive a crash unchanged. The
+// process dies at any Badger commit statement (or marked boundary) inside the
+// first use of a namespace or inside a batch that introduces a new identifier;
+// what the dead process had handed out before is read from a note it left on
+// disk. After recovery: the earlier prefix and internal id are what they were,
+// a mapping acknowledged before the crash still holds, asking again for an
+// unacknowledged namespace gives a prefix that collides with nothing, a new
+// namespace and a new identifier get values never handed out before.
+func VerifC13Crash(h *verifh.H) {
+	env := VerifConfig(h, time.Hour)
+	note := h.TempDir() + "/handed.txt"
+	op := h.Choice("op", 2)
+	idOf := func(hub *VHub, curie string) (uint64, bool) {
+		rtxn := hub.Store.database.NewTransaction(false)
+		defer rtxn.Discard()
+		rid, ok, err := hub.Store.getIDForURI(rtxn, curie)
+		return rid, ok && err == nil
+	}
+	if h.BeforeCrash() {
+		hub := VerifOpenHub(env)
+		ds, err := hub.Dsm.CreateDataset("d", nil)
+		h.Assert(err == nil, "create")
+		pA, err := hub.Store.NamespaceManager.AssertPrefixMappingForExpansion("http://a/")
+		h.Assert(err == nil, "first namespace")
+		e1 := NewEntity(pA+":e1", 0)
+		e1.Properties[pA+":v"] = "x"
+		h.Assert(ds.StoreEntities([]*Entity{e1}) == nil, "first entity")
+		i1, ok := idOf(hub, pA+":e1")
+		h.Assert(ok, "first entity has an internal id")
+		text := "A=" + pA + ";e1=" + itoa(int(i1))
+		h.Assert(os.WriteFile(note, []byte(text), 0o644) == nil, "note")
+		if h.Param("commitPoints", 1) == 1 {
+			h.CrashAtCommits()
+		}
+		h.CrashWindowStart()
+		if op == 0 {
+			pB, err := hub.Store.NamespaceManager.AssertPrefixMappingForExpansion("http://b/")
+			h.Assert(err == nil, "second namespace")
+			text += ";B=" + pB
+		} else {
+			e2 := NewEntity(pA+":e2", 0)
+			e2.References[pA+":r"] = pA + ":e9" // the reference target gets an internal id as well
+			h.Assert(ds.StoreEntities([]*Entity{e2}) == nil, "second entity")
+			i2, ok := idOf(hub, pA+":e2")
+			h.Assert(ok, "second entity has an internal id")
+			text += ";e2=" + itoa(int(i2))
+		}
+		h.Assert(os.WriteFile(note, []byte(text), 0o644) == nil, "note")
+	}
+	h.CrashAndRecover()
+
+	hub := VerifOpenHub(env)
+	raw, err := os.ReadFile(note)
+	h.Assert(err == nil, "note readable")
+	handed := map[string]string{}
+	for _, kv := range strings.Split(string(raw), ";") {
+		if k := strings.Index(kv, "="); k > 0 {
+			handed[kv[:k]] = kv[k+1:]
+		}
+	}
+	pA := handed["A"]
+	nm := hub.Store.NamespaceManager
+	q, err := nm.GetPrefixMappingForExpansion("http://a/")
+	h.Assert(err == nil && q == pA, "the prefix handed out before the crash is unchanged :: handed="+pA+" now="+q)
+	back, err := hub.Store.ExpandCurie(pA + ":x")
+	h.Assert(err == nil && back == "http://a/x", "the prefix still expands to its namespace :: got="+back)
+	i1, ok := idOf(hub, pA+":e1")
+	h.Assert(ok && itoa(int(i1)) == handed["e1"], "the internal id handed out before the crash is unchanged :: handed="+handed["e1"]+" now="+itoa(int(i1)))
+	if h.Acked() {
+		if op == 0 {
+			h.Assert(handed["B"] != "", "note complete")
+		} else {
+			h.Assert(handed["e2"] != "", "note complete")
+		}
+	}
+	if pB := handed["B"]; pB != "" {
+		q, err := nm.GetPrefixMappingForExpansion("http://b/")
+		h.Assert(err == nil && q == pB, "a prefix acknowledged before the crash is unchanged :: handed="+pB+" now="+q)
+	}
+	if s2 := handed["e2"]; s2 != "" {
+		i2, ok := idOf(hub, pA+":e2")
+		h.Assert(ok && itoa(int(i2)) == s2, "an internal id acknowledged before the crash is unchanged :: handed="+s2+" now="+itoa(int(i2)))
+	}
+	// new mappings after recovery collide with nothing handed out before
+	pB2, err := nm.AssertPrefixMappingForExpansion("http://b/")
+	h.Assert(err == nil && pB2 != pA, "asking again after the crash gives a prefix of its own :: "+pB2)
+	if handed["B"] != "" {
+		h.Assert(pB2 == handed["B"], "and the same one if it was handed out :: handed="+handed["B"]+" now="+pB2)
+	}
+	pC, err := nm.AssertPrefixMappingForExpansion("http://c/")
+	h.Assert(err == nil && pC != pA && pC != pB2, "a new namespace gets a prefix never handed out :: "+pC)
+	for _, p := range []string{pA, pB2, pC} {
+		cnt := 0
+		for q := range hub.Store.GetGlobalContext(false).Namespaces {
+			if q == p {
+				cnt++
+			}
+		}
+		h.Assert(cnt == 1, "every prefix is in the context exactly once :: "+p)
+	}
+	e3 := NewEntity(pA+":e3", 0)
+	h.Assert(hub.Dsm.GetDataset("d").StoreEntities([]*Entity{e3}) == nil, "write after recovery")
+	i3, ok := idOf(hub, pA+":e3")
+	h.Assert(ok && itoa(int(i3)) != handed["e1"] && (handed["e2"] == "" || itoa(int(i3)) != handed["e2"]), "a new identifier gets an internal id never handed out :: "+itoa(int(i3)))
+	if i2, ok := idOf(hub, pA+":e2"); ok {
+		h.Assert(i2 != i3 && i2 != i1, "identifiers have distinct internal ids")
+	}
+	h.Observe("acked", h.Acked())
 }
